@@ -372,6 +372,8 @@ class ConcVC(BaseVC):
     pi = math.pi
 
     def _draw(self, name, lo, hi, integer=False, special=()):
+        if name in self.inputs:  # an input declared twice is the same value (as its symbolic namesake)
+            return self.inputs[name]
         if name in self.values:
             v = self.values[name]
             return int(v) if integer else float(v)
